@@ -25,11 +25,13 @@ _st = {}
 
 def near_limit_items():
     """inputs whose nesting sits just below / at the recursion limit and whose innermost token is the first of its kind: work that is done
-    once per process (a pattern compiled on first use, a table filled lazily) costs stack only the first time"""
+    once per process (a pattern compiled on first use, a module imported lazily, a table filled on demand) costs stack only the first time.
+    A pair of parentheses costs 38 frames and a unary minus 2, so 20 minuses on top of 21 and of 22 parentheses walk across the limit in
+    steps of two frames whatever the exact base depth is"""
     out = []
-    for lit in ("f'a'", "'s'", "b'y'", "rf'\\d{a}'", 'f"""{a:>{w}}"""', "p'/x'", "`g*`", "0x1f", "$(ls)", "f!(z)"):
-        for d in (18, 20, 21, 22):
-            for k in (0, 8):
+    for lit in ("f'a'", "'s'", "rf'\\d{a}'", 'f"\\n"', '"\\N{BULLET}"', "`g*`", "$(echo! raw)", "\u00b5"):
+        for d in (21, 22):
+            for k in range(0, 20):
                 out.append("v = " + "(" * d + "-" * k + lit + ")" * d + "\n")
     return out
 
